@@ -115,22 +115,19 @@ pub extern "C" fn ec_new(p: *const u8, n: usize) -> u32 {
     with(|h| {
         h.builtin_calls += 1;
         let s = unsafe { String::from_utf8_lossy(std::slice::from_raw_parts(p, n)).to_string() };
-        h.error_contexts += 1;
-        h.table.push(Some(Entry::ErrCtx(s)));
-        (h.table.len() - 1) as u32
+        let i = h.errctx_new(s);
+        crate::tr!(h, "error-context.new -> {i}");
+        i
     })
 }
 #[unsafe(export_name = "[error-context-drop]")]
 pub extern "C" fn ec_drop(i: u32) {
     with(|h| {
         h.builtin_calls += 1;
-        match h.table.get(i as usize) {
-            Some(Some(Entry::ErrCtx(_))) => {
-                h.table[i as usize] = None;
-                h.error_contexts -= 1;
-            }
-            _ => h.violate("T-IDX", "error-context.drop", format!("error-context.drop({i}): not a live error context")),
+        if !h.errctx_drop(i) {
+            h.violate("T-IDX", "error-context.drop", format!("error-context.drop({i}): not a live error context"))
         }
+        crate::tr!(h, "error-context.drop({i})");
     })
 }
 #[repr(C)]
